@@ -287,6 +287,7 @@ class Builder:
             self.fill_members(ns)
         self.shape_permission_family()
         self.tags_named_like_fields()
+        self.sibling_twins()
         self.repair_inhabited()
         if cfg.routes:
             if cfg.schema:
@@ -672,6 +673,29 @@ class Builder:
             if a.get('subtypes'):
                 taken |= {t for t, _ in a['subtypes']['items']}
         return taken
+
+    def sibling_twins(self):
+        """Under union_struct_bias, one spec in three: a second child of some union's parent that declares a
+        member with the *same name but another type* as its sibling (legal: siblings are unrelated types;
+        whatever is kept per union family must not confuse them)."""
+        g = self.g
+        if not self.cfg.union_struct_bias or not g.p(33):
+            return
+        cands = [(n, d) for n, d in self.idx.types(('union',))
+                 if d.get('parent') and not d.get('patch') and any(tg['type'] is not None for tg in d['tags'])]
+        if not cands:
+            return
+        n, d = g.choice(cands)
+        ns = self.idx.ns[n]
+        tg = g.choice([x for x in d['tags'] if x['type'] is not None])
+        base = self.idx.base(tg['type'])
+        other = prim('Int64') if base == prim('String') or base[0] != 'prim' else prim('String')
+        name = self.new_type_name(ns)
+        twin = {'k': 'union', 'name': name, 'closed': d['closed'], 'parent': d['parent'], 'doc': None,
+                'tags': [{'name': tg['name'], 'type': other, 'doc': None, 'annots': []}], 'examples': [], 'patch': 0}
+        self.rank[(n, name)] = len(self.rank)
+        ns['defs'].append(twin)
+        self.idx = M.Index(self.api)
 
     def tags_named_like_fields(self):
         """Under union_struct_bias: name some struct-valued union tags after a field of the struct they
